@@ -40,6 +40,10 @@
   * `C02_parameters` (`Theorems/ParamForm.lean`): parameter lists — `_parse_parameters` on `p1 , … , pn )` with
     plain parameters `Ti ptr-ops name`, ANY number of them: the parameters in order, each with its
     own name and the type ITS declarator denotes; nothing dropped by the `void` rule; no vararg.
+  * `C02_array_declarator` (`Theorems/ArrayForm.lean`): array declarators — for properly nested size tokens followed
+    by `]` and a token that is not `[`, `_parse_array_type` returns the array of the element type
+    whose size is EXACTLY the written tokens (none for `[]`; C14's array-size position) and leaves
+    the following token in the stream.
 -/
 import CxxModel.Interp
 import CxxModel.Tables
@@ -50,6 +54,7 @@ import CxxModel.Theorems.PqName
 import CxxModel.Theorems.VarDecl
 import CxxModel.Theorems.RefChain
 import CxxModel.Theorems.ParamForm
+import CxxModel.Theorems.ArrayForm
 namespace Cxx
 
 /-- after `bounded`, the continuation runs on the outer buffer -/
@@ -209,6 +214,22 @@ theorem C02_parameters (env : Env) (F D : Nat) (ps : List (PItem × DType × Tok
         (w', .ok (ps.map (fun q => q.1.param q.2.1) ++ [last.1.param last.2], false, [])) ∧
       SameButLog w w' ∧ w'.buf = b' :=
   parseParameters_plain env F D ps last cp w b' hall hlast hlF hcp hcpv hy hF
+
+end
+
+section
+open P
+
+theorem C02_array_declarator (env : Env) (F : Nat) (ob : CTok) (dtype : DType) (content : List Tok) (cb nx : Tok)
+    (w : World) (bmid b' : Buf) (hob : ob.type = "[") (hnr : isRefLike dtype = false)
+    (hn : Nested (content.map (·.type))) (hcb : cb.type = "]")
+    (hy : Yields env.cfg w.buf (content ++ [cb]) bmid) (htnx : tokenEofOk env.cfg bmid = .ok (some nx, b')) (hnx : nx.type ≠ "[")
+    (hF : content.length + 1 ≤ F) :
+    ∃ (w' : World) (t' : Tok),
+      interp env (parseArrayType (F + 1) ob dtype) w =
+        (w', .ok (.array dtype (if content.isEmpty then none else some (valueOf content)))) ∧
+      SameParse w w' ∧ tokenEofOk env.cfg w'.buf = .ok (some t', b') ∧ t'.type = nx.type ∧ t'.value = nx.value :=
+  parseArrayType_one env F ob dtype content cb nx w bmid b' hob hnr hn hcb hy htnx hnx hF
 
 end
 
